@@ -65,6 +65,9 @@ impl<'a> Tape<'a> {
 	pub fn pick<'t, T>(&mut self, items: &'t [T]) -> &'t T {
 		&items[self.below(items.len())]
 	}
+	pub fn pick_str(&mut self, items: &[&'static str]) -> &'static str {
+		items[self.below(items.len())]
+	}
 	pub fn bytes(&mut self, n: usize) -> Vec<u8> {
 		(0..n).map(|_| self.byte()).collect()
 	}
